@@ -16,9 +16,10 @@ import (
 )
 
 type Op struct {
-	K     string        `json:"k"` // create | dml | restart | crash
+	K     string        `json:"k"` // create | dml | restart | crash | abort-txn
 	Def   *dbh.TableDef `json:"def,omitempty"`
 	Stmt  *dbh.Stmt     `json:"stmt,omitempty"`
+	Stmts []dbh.Stmt    `json:"stmts,omitempty"` // abort-txn: statements of a transaction that is rolled back
 	Check bool          `json:"check,omitempty"` // run the query battery right after this op (always after restarts)
 }
 
@@ -241,6 +242,30 @@ func run(c *Case, identity bool, st *Stats) *vf.Failure {
 			if st.Restarts+st.Crashes > 0 {
 				st.WorkAfter = true
 			}
+		case "abort-txn":
+			t := db.Begin()
+			work := m.Clone()
+			for si := range op.Stmts {
+				s := &op.Stmts[si]
+				if s.Kind != "insert" {
+					a, b := work.Clone(), work.Clone()
+					a.Apply(s, dbh.EvalMode{NullNE: true})
+					b.Apply(s, dbh.EvalMode{NullNE: false})
+					if dbh.MultisetDiff(a.Tables[s.Table].Rows, b.Tables[s.Table].Rows) != "" {
+						continue
+					}
+				}
+				if _, err := t.Exec(s); err == nil && !t.Done {
+					work.Apply(s, dbh.EvalMode{})
+				}
+				if t.Done {
+					break
+				}
+			}
+			if !t.Done {
+				t.Abort()
+			}
+			st.Classes["aborted-transaction"] = true
 		case "restart", "crash":
 			n := 0
 			for _, d := range defs {
@@ -302,11 +327,17 @@ func kindClass(def *dbh.TableDef) string {
 // ---- generator ------------------------------------------------------------------------------------------
 
 type GenOpts struct {
+	AbortTxns   bool // generate rolled-back transactions (C07)
+	DupKeys     bool // duplicate keys on B-tree / hash key columns (C07)
 	Crash       bool // allow crash restarts (C10)
 	MaxTables   int
 	MaxCols     int
 	Prof        sqlgen.Profile
 	SpecialKind []string // index kinds allowed on the key column of "special" tables
+	// NoBtreeCleanAfterCrash: known finding KF-C07-btree-stale-header-after-crash — once a history with a
+	// B-tree table had a crash restart, later restarts are crash restarts too
+	NoBtreeCleanAfterCrash bool
+	OnExcluded             func(string)
 }
 
 type gstate struct {
@@ -338,27 +369,58 @@ func Gen(t *rapid.T, o GenOpts) *Case {
 			c.Ops = append(c.Ops, Op{K: "create", Def: def})
 		case k <= 6:
 			def := g.defs[rapid.IntRange(0, len(g.defs)-1).Draw(t, "tbl")]
-			if s := genDML(t, g, def, o); s != nil {
+			if o.AbortTxns && rapid.IntRange(0, 3).Draw(t, "aborted") == 0 {
+				saved := map[string][]int32{}
+				for kk, v := range g.ids {
+					saved[kk] = append([]int32{}, v...)
+				}
+				op := Op{K: "abort-txn", Check: true}
+				ns := rapid.IntRange(1, 3).Draw(t, "nab")
+				for j := 0; j < ns; j++ {
+					if s := genDML(t, g, def, o); s != nil {
+						op.Stmts = append(op.Stmts, *s)
+					}
+				}
+				g.ids = saved
+				c.Ops = append(c.Ops, op)
+			} else if s := genDML(t, g, def, o); s != nil {
 				c.Ops = append(c.Ops, Op{K: "dml", Stmt: s, Check: rapid.IntRange(0, 5).Draw(t, "chk") == 0})
 			}
 		default:
-			kind := "restart"
-			if o.Crash && rapid.Bool().Draw(t, "crash") {
-				kind = "crash"
-			}
-			c.Ops = append(c.Ops, Op{K: kind})
+			c.Ops = append(c.Ops, Op{K: restartKind(t, o, c, nBtree)})
 		}
 	}
-	if c.Ops[len(c.Ops)-1].K == "create" || c.Ops[len(c.Ops)-1].K == "dml" {
-		kind := "restart"
-		if o.Crash && rapid.Bool().Draw(t, "crash") {
-			kind = "crash"
-		}
-		c.Ops = append(c.Ops, Op{K: kind})
+	if k := c.Ops[len(c.Ops)-1].K; k == "create" || k == "dml" || k == "abort-txn" {
+		c.Ops = append(c.Ops, Op{K: restartKind(t, o, c, nBtree)})
 	}
 	frames := 3*nIdx + 8*nBtree + 10 + rapid.SampledFrom([]int{0, 6, 30, 100}).Draw(t, "spare")
 	c.KB = frames * 4
 	return c
+}
+
+func restartKind(t *rapid.T, o GenOpts, c *Case, nBtree int) string {
+	kind := "restart"
+	if o.Crash && rapid.Bool().Draw(t, "crash") {
+		kind = "crash"
+	}
+	if kind == "restart" && o.NoBtreeCleanAfterCrash {
+		crashed, btree := false, false
+		for _, op := range c.Ops {
+			if op.K == "crash" {
+				crashed = true
+			}
+			if op.K == "create" && special(op.Def) == dbh.IdxBtree {
+				btree = true
+			}
+		}
+		if crashed && btree {
+			if o.OnExcluded != nil {
+				o.OnExcluded("btree-clean-restart-after-crash")
+			}
+			kind = "crash"
+		}
+	}
+	return kind
 }
 
 func genTable(t *rapid.T, name string, o GenOpts) *dbh.TableDef {
@@ -423,14 +485,18 @@ func genDML(t *rapid.T, g *gstate, def *dbh.TableDef, o GenOpts) *dbh.Stmt {
 		for i := 0; i < nr; i++ {
 			g.nextID++
 			r := sqlgen.Row(t, def, prof)
-			r[0] = dbh.IntV(g.nextID)
+			key := g.nextID
+			if o.DupKeys && sp != dbh.IdxUniqSkip && len(live) > 0 && rapid.IntRange(0, 2).Draw(t, "dup") == 0 {
+				key = live[rapid.IntRange(0, len(live)-1).Draw(t, "dupof")] // duplicate key (non-unique kinds)
+			}
+			r[0] = dbh.IntV(key)
 			for ci, cl := range def.Cols { // B-tree container keys are limited in length; keep strings short on these tables
 				if cl.T == "s" && !r[ci].Null && len(r[ci].S) > 20 {
 					r[ci] = dbh.StrV(r[ci].S[:20])
 				}
 			}
 			s.Rows = append(s.Rows, r)
-			live = append(live, g.nextID)
+			live = append(live, key)
 		}
 		g.ids[def.Name] = live
 		return s
@@ -445,7 +511,13 @@ func genDML(t *rapid.T, g *gstate, def *dbh.TableDef, o GenOpts) *dbh.Stmt {
 	default:
 		idx := rapid.IntRange(0, len(live)-1).Draw(t, "did")
 		id := live[idx]
-		g.ids[def.Name] = append(append([]int32{}, live[:idx]...), live[idx+1:]...)
+		var keep []int32
+		for _, x := range live {
+			if x != id {
+				keep = append(keep, x)
+			}
+		}
+		g.ids[def.Name] = keep
 		return &dbh.Stmt{Kind: "delete", Table: def.Name, Where: dead(dbh.Leaf(def.Cols[0].Name, "=", dbh.IntV(id)))}
 	}
 }
